@@ -104,6 +104,7 @@ def run(chk, ctx):
     runs = 0
     globals_read = set()
     nondet = []
+    unknown = []
     bad_all = []
 
     def scan_outputs(it, outs, where):
@@ -147,7 +148,11 @@ def run(chk, ctx):
         scan_outputs(it, outs, fi.short)
         for note in it.notes:
             if note.startswith('unmodelled library call'):
-                nondet.append(note)
+                path = note.split()[3]
+                if models.ambient(path):
+                    nondet.append('ambient state: ' + note)
+                else:
+                    unknown.append(note)
     seen = set()
     for where, e in bad_all:
         k = (e.kind, T.show(e.target)[:60], e.site)
@@ -168,6 +173,9 @@ def run(chk, ctx):
            sorted(globals_read))
     chk.ob('C12.D', 'nondeterministic primitives', not nondet,
            'none reachable' if not nondet else '; '.join(nondet[:3]))
+    if unknown:
+        chk.undecide('C12.D', 'library calls without a model',
+                     '; '.join(sorted(set(unknown))[:3]))
     deco = []
     for fi in funcs:
         for d in fi.node.decorator_list:
